@@ -232,20 +232,24 @@ impl<F: Field> SparsePolynomial<F> {
     }
 
     /// Constructs a new polynomial from a list of coefficients.
-    /// The function does not combine like terms and so multiple monomials
-    /// of the same degree are ignored.
+    /// Monomials of the same degree are combined, and monomials whose
+    /// coefficient is (or sums to) zero are dropped, so that the stored terms are
+    /// sorted by strictly increasing degree and all non-zero.
     pub fn from_coefficients_vec(mut coeffs: Vec<(usize, F)>) -> Self {
-        // While there are zeros at the end of the coefficient vector, pop them off.
-        while coeffs.last().is_some_and(|(_, c)| c.is_zero()) {
-            coeffs.pop();
-        }
         // Ensure that coeffs are in ascending order.
         coeffs.sort_by(|(c1, _), (c2, _)| c1.cmp(c2));
-        // Check that either the coefficients vec is empty or that the last coeff is
-        // non-zero.
-        assert!(coeffs.last().map_or(true, |(_, c)| !c.is_zero()));
+        // Combine like terms.
+        let mut combined: Vec<(usize, F)> = Vec::with_capacity(coeffs.len());
+        for (degree, coeff) in coeffs {
+            match combined.last_mut() {
+                Some((last_degree, last_coeff)) if *last_degree == degree => *last_coeff += coeff,
+                _ => combined.push((degree, coeff)),
+            }
+        }
+        // Drop the terms that are zero.
+        combined.retain(|(_, c)| !c.is_zero());
 
-        Self { coeffs }
+        Self { coeffs: combined }
     }
 
     /// Perform a naive n^2 multiplication of `self` by `other`.
